@@ -299,6 +299,22 @@ var c11Edits = []c11Edit{
 		ln, col := lineCol(out, l[0]+1)
 		return out, ln, col, true
 	}},
+	{rule: "missing-closing-delimiter", textEd: func(c *ctx, src string) (string, int, int, bool) {
+		// delete one `)`, `]` or template-closing `>`: the delimiters no longer balance, whatever the site
+		re := regexp.MustCompile(`\)|\]|(?:vec[234]|array|atomic|ptr|var|bitcast|mat[234]x[234])<[^<>;(){}]*(>)`)
+		locs := re.FindAllStringSubmatchIndex(src, -1)
+		if len(locs) == 0 {
+			return "", 0, 0, false
+		}
+		l := locs[c.rng.Intn(len(locs))]
+		at := l[0]
+		if l[2] >= 0 {
+			at = l[2] // the closing > of the template list
+		}
+		out := src[:at] + src[at+1:]
+		ln, _ := lineCol(out, at)
+		return out, ln, 0, true
+	}},
 	{rule: "missing-closing-brace", textEd: func(c *ctx, src string) (string, int, int, bool) {
 		// the closing brace of a function that is followed by another declaration
 		re := regexp.MustCompile(`\n\}\n(@compute|fn )`)
